@@ -183,7 +183,7 @@ public:
       return var_or_cst_t(g.ivar());
     return var_or_cst_t(z_number(sz[t.pick(5)]), crab::variable_type(crab::INT_TYPE, o.int_width));
   }
-  lin_t gep_offset(bool nonzero) {
+  lin_t gep_offset(bool nonzero, block_t *blk = nullptr) {
     static const int64_t offs[] = {4, 8, -4, 12, 1, 16};
     unsigned k = t.pick(8);
     if (!nonzero && k == 0)
@@ -194,7 +194,11 @@ public:
       // a*i + c with a constant term as well (the variable is often exactly 0: the offset is
       // then non-zero only through c)
       static const int64_t cs[] = {0, 4, 8, -4};
-      return lin_t(z_number(4), g.ivar()) + lin_t(z_number(cs[t.pick(4)]));
+      var_t iv = g.ivar();
+      // (tail choice) straight-line initialisation code: `i := 0; q := &p[i + 1]`
+      if (blk && (t.tail_u8() & 1))
+        blk->assign(iv, lin_t(z_number(0)));
+      return lin_t(z_number(4), iv) + lin_t(z_number(cs[t.pick(4)]));
     }
     return lin_t(z_number(offs[k % 6]));
   }
@@ -348,9 +352,13 @@ public:
     case 4: { // another cell of the same object, same region
       unsigned a = use_ref();
       int q = ref_with_home(p.refs[a].home, -1); // may be a itself: r := r + k
-      b.gep_ref(rv((unsigned)q), home((unsigned)q), rv(a), home(a), gep_offset(t.pick(4) != 0));
+      lin_t off = gep_offset(t.pick(4) != 0, &b);
+      b.gep_ref(rv((unsigned)q), home((unsigned)q), rv(a), home(a), off);
       if (t.pick(8) != 7)
         store(b, (unsigned)q);
+      // (tail choice) read the old cell back right away
+      if ((unsigned)q != a && (t.tail_u8() & 3) == 3)
+        load(b, a);
       break;
     }
     case 5: { // same object seen through another region
